@@ -16,6 +16,8 @@ mod c09;
 mod c13;
 mod c14;
 mod nharness;
+mod nwire;
+mod rawh2;
 mod c16;
 mod c17;
 mod c18;
@@ -122,16 +124,32 @@ const RVS_N: &[(&str, &str)] = &[
     ("OS sockets, DNS, real time", "none"),
 ];
 
+fn scn_n_calls() -> Scenario {
+    Scenario { name: "N-multiplexed-calls", engine: "N", run: nwire::run_calls, quick: 8_000, thorough: 200_000, grid: 0, what: "real Server + 1..3 Channels over simnet (fragmentation, stalls, back-pressure, randomised h2 windows/frame size): 1..8 concurrent calls over 3 services and 4 shapes multiplexed on the connections, scripted handlers with virtual latencies/gaps; identity-channel oracle per tagged call" }
+}
+fn scn_n_calls_kill() -> Scenario {
+    Scenario { name: "N-calls-connection-kill", engine: "N", run: nwire::run_calls_kill, quick: 4_000, thorough: 100_000, grid: 0, what: "fault-injecting configuration: the connection dies at a drawn byte offset while 1..5 calls are in flight; relaxed oracle (never success with wrong/missing data, items a prefix, clean end only after true OK, no hang)" }
+}
+fn scn_n_client_view() -> Scenario {
+    Scenario { name: "N-wire-client-view", engine: "N", run: nwire::run_client_view, quick: 4_000, thorough: 100_000, grid: 0, what: "tonic Channel + generated client -> raw h2 server (h2 crate only): method, :path, :scheme, content-type, te, metadata and body exactly as the wire carries them" }
+}
+fn scn_n_server_view() -> Scenario {
+    Scenario { name: "N-wire-server-view", engine: "N", run: nwire::run_server_view, quick: 4_000, thorough: 100_000, grid: 0, what: "raw h2 client (padded/unpadded -bin metadata) -> tonic Server with scripted handler: HTTP status, headers, DATA, trailers, END_STREAM placement and status fields exactly as the wire carries them" }
+}
+fn scn_n_hostile_server() -> Scenario {
+    Scenario { name: "N-hostile-h2-server", engine: "N", run: nwire::run_hostile_server, quick: 3_000, thorough: 80_000, grid: 16, what: "raw h2 server answers a tonic Channel with real RST_STREAM(reason) before headers / after headers / mid-body (reasons 0..=15 enumerated first) or with an HTTP status and no grpc-status; mapping through the real hyper::Error path" }
+}
+
 fn props() -> Vec<Property> {
     vec![
     Property {
         id: "C02",
         title: "Client observes exactly the messages, metadata and status the server produced",
-        scenarios: vec![scn_c02_f()],
+        scenarios: vec![scn_c02_f(), scn_n_calls(), scn_n_calls_kill(), scn_n_server_view()],
         rule: "one run = 1..3 calls (shape, request messages+metadata, handler script: k messages then OK or Status(code,msg,details,metadata), possibly refused at call time) x compression config x codec buffer settings x readiness of sources and both bodies x re-chunking of both bodies; non-trivial = an error script, an injected Pending or a re-cut frame; distinct = distinct hash of all structural tape decisions",
         real_vs_stub: RVS_F.to_vec(),
-        assumptions: vec!["fault-free configuration: the loopback never kills a body (connection kills are an engine-N configuration)"],
-        required_probes: vec!["error-before-first-message-in-stream", "error-after-messages", "trailers-only-response", "status-after-data-on-wire"],
+        assumptions: vec!["fault-free and fault-injecting (connection kill) configurations are separate scenarios with separate oracles; under a kill a call may fail with any status but never succeeds with wrong or missing data", "engine N varies interleavings through the seams (transport readiness, stalls, windows, start offsets, handler gaps); tokio's run queue itself is FIFO"],
+        required_probes: vec!["error-before-first-message-in-stream", "error-after-messages", "trailers-only-response", "status-after-data-on-wire", "concurrent-calls", "streams-multiplexed-on-one-connection", "connection-killed-during-calls"],
     },
     Property {
         id: "C01",
@@ -145,11 +163,11 @@ fn props() -> Vec<Property> {
     Property {
         id: "C03",
         title: "Requests and responses on the wire are spec-conformant gRPC",
-        scenarios: vec![scn_c01(), scn_c06_enc()],
+        scenarios: vec![scn_c01(), scn_c06_enc(), scn_c02_f(), scn_n_client_view(), scn_n_server_view()],
         rule: "passive wire monitor on the C01/C06 (and loopback) runs: every emitted body is parsed by the independent decoder; non-trivial/distinct as in the host scenario",
         real_vs_stub: RVS_F.to_vec(),
         assumptions: vec!["'nothing after the trailers block' is judged the way hyper's HTTP/2 sender consumes a body (stops after trailers / error / None / end-stream flag)"],
-        required_probes: vec!["encoder-emitted-several-data-frames"],
+        required_probes: vec!["encoder-emitted-several-data-frames", "client-wire-view", "server-wire-view"],
     },
     Property {
         id: "C04",
@@ -159,6 +177,8 @@ fn props() -> Vec<Property> {
             Scenario { name: "F-http-status", engine: "F", run: c04::run_http_status, quick: 4_000, thorough: 100_000, grid: 500, what: "HTTP status 100..=599 (enumerated completely first) with no grpc-status, with/without body and trailers" },
             Scenario { name: "F-reset", engine: "F", run: c04::run_reset, quick: 4_000, thorough: 100_000, grid: 16, what: "stream reset surfaced as an h2::Error body error, reasons 0..=15 enumerated first, before/after/inside messages" },
             scn_c02_f(),
+            scn_n_hostile_server(),
+            scn_n_server_view(),
         ],
         rule: "one run = one call answered by a scripted peer with one header combination / HTTP status / reset reason x chunking x readiness (plus the C02 loopback runs sampling the status round trip); non-trivial = every hostile run; distinct = distinct hash of structural tape decisions",
         real_vs_stub: RVS_F.to_vec(),
@@ -167,13 +187,15 @@ fn props() -> Vec<Property> {
             "in engine F a reset is injected as a body error of type h2::Error (hyper would wrap it in hyper::Error; that path is engine N)",
             "HTTP/2 error codes the gRPC table leaves unmapped (STREAM_CLOSED, HTTP_1_1_REQUIRED, unknown) are not judged",
         ],
-        required_probes: vec!["invalid-base64-details", "invalid-utf8-message"],
+        required_probes: vec!["invalid-base64-details", "invalid-utf8-message", "real-h2-reset", "real-http-status", "http-error-with-non-grpc-body"],
     },
     Property {
         id: "C08",
         title: "User metadata crosses the wire intact; protocol headers cannot be forged",
         scenarios: vec![
             scn_c02_f(),
+            scn_n_client_view(),
+            scn_n_server_view(),
             Scenario { name: "F-foreign-to-server", engine: "F", run: c08::run_to_server, quick: 40_000, thorough: 800_000, grid: 0, what: "foreign client peer sends padded/unpadded base64 -bin values and repeated keys; the handler reads them through the typed accessors" },
             Scenario { name: "F-foreign-to-client", engine: "F", run: c08::run_to_client, quick: 40_000, thorough: 800_000, grid: 0, what: "foreign server peer sends metadata in response headers, trailers and error statuses (padded/unpadded); the caller reads them through the typed accessors" },
         ],
@@ -186,11 +208,11 @@ fn props() -> Vec<Property> {
         id: "C05",
         title: "Compression is used only as negotiated and configured",
         scenarios: vec![
-            Scenario { name: "F-negotiation-grid", engine: "F", run: c05::run_grid, quick: 6_000, thorough: 200_000, grid: c05::GRID, what: "tonic client <-> tonic server over the loopback: all 2048 (server accept, server send, client send, client accept) configurations enumerated first (enable order drawn), then random cells; unary and server-streaming; per-response opt-out" },
+            Scenario { name: "F-negotiation-grid", engine: "F", run: c05::run_grid, quick: 12_000, thorough: 400_000, grid: c05::GRID, what: "tonic client <-> tonic server over the loopback: all 8192 (server accept, server send, client send, client accept, call shape) configurations enumerated first (enable order drawn), then random cells; all four call shapes; per-response opt-out" },
             Scenario { name: "F-hostile-request", engine: "F", run: c05::run_hostile_request, quick: 30_000, thorough: 600_000, grid: 0, what: "foreign client peer -> tonic server: arbitrary grpc-accept-encoding lists (spacing, unknown tokens, duplicates, case, non-ASCII), arbitrary grpc-encoding values, flag 0/1 frames" },
             Scenario { name: "F-hostile-response", engine: "F", run: c05::run_hostile_response, quick: 20_000, thorough: 400_000, grid: 0, what: "foreign server peer -> tonic client: arbitrary grpc-encoding on the response, flag 0/1 frames" },
         ],
-        rule: "one run = one call under one (server accept/send, client send/accept) configuration or one hostile header combination x chunking x readiness; every run is non-trivial; distinct = distinct hash of structural tape decisions; the first 2048 grid runs enumerate the configuration space completely",
+        rule: "one run = one call under one (server accept/send, client send/accept) configuration or one hostile header combination x chunking x readiness; every run is non-trivial; distinct = distinct hash of structural tape decisions; the first 8192 grid runs enumerate configuration x call shape completely",
         real_vs_stub: RVS_F.to_vec(),
         assumptions: vec!["whether a server must compress when it could is not prescribed by the property (probe only)", "offered encodings = comma-separated, trimmed, case-sensitive tokens of grpc-accept-encoding"],
         required_probes: vec!["request-encoding-refused", "response-compressed", "compressed-flag-without-encoding", "response-encoding-refused"],
@@ -198,14 +220,14 @@ fn props() -> Vec<Property> {
     Property {
         id: "C06",
         title: "Message size limits are enforced exactly and without collateral loss",
-        scenarios: vec![scn_c06_dec(), scn_c06_enc(), scn_c06_4g()],
+        scenarios: vec![scn_c06_dec(), scn_c06_enc(), scn_c06_4g(), Scenario { name: "F-limit-plumbing", engine: "F", run: c06::run_plumbing, quick: 60_000, thorough: 1_200_000, grid: 0, what: "limits through the generated client/server plumbing over the loopback: independent (asymmetric) decoding/encoding limits on both sides, all four call shapes, message sizes around the limits; reference predicts where the first refusal happens" }],
         rule: "one run = a stream of small messages with one probe message whose wire length sits at limit-1/limit/limit+1 (or a declared length with no payload) x chunking x readiness x role/direction; every run is non-trivial; distinct = distinct hash of all structural tape decisions",
         real_vs_stub: RVS_F.to_vec(),
         assumptions: vec![
             "for compressed outgoing messages the harness cannot know tonic's exact compressed length, so the accept/refuse verdict is judged only away from the boundary (conservation is judged always)",
             "allocation is observed with a counting global allocator: no single allocation >= 1 MiB while refusing a declared length >= 1 MiB under a limit <= 64 KiB",
         ],
-        required_probes: vec!["limit-exactly-hit", "declared-length-without-payload", "refused-without-payload", "allocation-watched", "oversized-candidate-not-first", "oversized-candidate-first", "encode-over-limit", "encode-within-limit"],
+        required_probes: vec!["limit-exactly-hit", "declared-length-without-payload", "refused-without-payload", "allocation-watched", "oversized-candidate-not-first", "oversized-candidate-first", "encode-over-limit", "encode-within-limit", "plumbing-request-over-limit", "plumbing-response-over-limit", "plumbing-within-limits"],
     },
     Property {
         id: "C09",
